@@ -265,7 +265,7 @@ def lean_check(pid: str, thorough: bool = False, own_tables: bool = False):
     return res
 
 
-def tie_check(pid: str):
+def tie_check(pid: str, thorough: bool = False):
     """translator tie (DESIGN 16.5): regenerate the kernels this property uses from REPO's source, build the theorems that
     identify each regenerated kernel with the hand-written model kernel, audit their axioms.
     -> {kernel: "proved" | "lost: <why>"}; never raises an alarm by itself."""
@@ -323,6 +323,23 @@ def tie_check(pid: str):
                     out[nm] = "proved"
                 else:
                     out[nm] = "lost: axiom audit of the tie theorem failed"
+        if thorough and pid in ("C03", "C04", "C06", "C08", "C11", "C13") and all(v == "proved" for v in out.values()):
+            # the property theorems transported onto the regenerated kernels (Skc/Tie/Source.lean)
+            src = strip_lean_comments((LEAN / "Skc" / "Tie" / "Source.lean").read_text())
+            ns = ["Skc.Source." + x for x in re.findall(r"^\s*theorem\s+([A-Za-z_][A-Za-z0-9_.']*)", src, flags=re.M)]
+            rc, _ = _run(["lake", "build", "Skc.Tie.Source"])
+            if rc != 0:
+                out["(source-level corollaries)"] = "lost: Skc/Tie/Source.lean does not build"
+            else:
+                f = LEAN / ".audit" / f"tie-source-{pid}.lean"
+                f.write_text("import Skc.Tie.Source\n" + "".join(f"#print axioms {n}\n" for n in ns))
+                rc, o = _run(["lake", "env", "lean", str(f)])
+                okc = 0
+                for m in re.finditer(r"'([^']+)' depends on axioms: \[([^\]]*)\]", o):
+                    if {a.strip() for a in m.group(2).replace("\n", " ").split(",") if a.strip()} <= ALLOWED_AXIOMS:
+                        okc += 1
+                okc += len(re.findall(r"' does not depend on any axioms", o))
+                out["(source-level corollaries)"] = "proved" if okc == len(ns) and rc == 0 else f"lost: {okc}/{len(ns)} corollaries pass the audit"
     return out
 
 
